@@ -392,4 +392,4 @@ def r6(ctx):
                        f"({len(allowed)} triaged refresh store(s) of derived scoring fields excepted)", role=f"input-write:{short(q)}")
         # the exception stays valid only while it is an idempotent refresh from train_inverse of the same cluster (C05.R3 decides that)
     from . import c05
-    ctx.sub(c05.r3)
+    ctx.sub(c05.r3, only=("refresh:source", "refresh:then-copy", "refresh:model"))
